@@ -5,6 +5,7 @@ package absint
 
 import (
 	"fmt"
+	"go/token"
 	"go/types"
 	"os"
 	"sort"
@@ -55,8 +56,10 @@ type Analyzer struct {
 	OnReturn func(fn *ssa.Function, st *State, val Term) // top-level entry returns
 	OnCall   func(a *Analyzer, st *State, site ssa.CallInstruction, callee *ssa.Function, args []Term)
 	// Recorded reads of input bytes etc. are available through atoms (Op/Args).
-	steps           int
-	MaxSteps        int
+	steps    int
+	MaxSteps int
+	// StepsUsed: the largest number of interpreted instructions any entry of this analyzer needed (budget calibration)
+	StepsUsed       int
 	entryFn         *ssa.Function
 	strBases        map[string]*Base
 	freshObjs       map[int]bool
@@ -388,6 +391,9 @@ func (a *Analyzer) RunEntry(fn *ssa.Function, st *State, args []Term, bindings [
 		rets = a.runFunc(fn, st, args, bindings, 0)
 	}()
 	a.sinks = nil
+	if a.steps > a.StepsUsed {
+		a.StepsUsed = a.steps
+	}
 	return sink.obls, rets
 }
 
@@ -1016,10 +1022,119 @@ func (a *Analyzer) runLoop1(fr *frame, h *ssa.BasicBlock, body map[*ssa.BasicBlo
 				a.Undecided = append(a.Undecided, fmt.Sprintf("%s: loop at %s did not stabilise", shortFn(fr.fn), a.P.RelPos(h.Instrs[0].Pos())))
 			}
 			a.commit(sink)
+			if iter <= 40 {
+				a.progressObl(fr, h, body, comps, backs, newVal)
+			}
 			return ex, rs
 		}
 	}
 }
+
+// progressObl: a loop whose header guard compares a loop-carried integer with a loop-invariant bound (`for i < n`,
+// `for i > 0`) must move that integer towards the bound by at least 1 on every back edge; otherwise an input that
+// takes the offending path makes the loop spin for ever. Loops with other guards get no obligation.
+func (a *Analyzer) progressObl(fr *frame, h *ssa.BasicBlock, body map[*ssa.BasicBlock]bool, comps []*phiComp, backs []*State, newVal func(c *phiComp, B *State) (Lin, bool)) {
+	if len(h.Instrs) == 0 || len(h.Succs) != 2 {
+		return
+	}
+	iff, ok := h.Instrs[len(h.Instrs)-1].(*ssa.If)
+	if !ok {
+		return
+	}
+	cmp, ok := iff.Cond.(*ssa.BinOp)
+	if !ok {
+		return
+	}
+	inT, inF := body[h.Succs[0]], body[h.Succs[1]]
+	if inT == inF {
+		return
+	}
+	op := cmp.Op
+	if !inT { // the loop continues while the condition is false
+		switch op {
+		case token.LSS:
+			op = token.GEQ
+		case token.LEQ:
+			op = token.GTR
+		case token.GTR:
+			op = token.LEQ
+		case token.GEQ:
+			op = token.LSS
+		default:
+			return
+		}
+	}
+	invariant := func(v ssa.Value) bool {
+		for depth := 0; depth < 4; depth++ {
+			switch x := v.(type) {
+			case *ssa.Const, *ssa.Parameter, *ssa.FreeVar, *ssa.Global:
+				return true
+			case *ssa.Convert:
+				v = x.X
+				continue
+			case *ssa.Call:
+				if b, isB := x.Call.Value.(*ssa.Builtin); isB && b.Name() == "len" && len(x.Call.Args) == 1 {
+					// the length of a slice or string VALUE never changes; the value must come from outside the loop
+					if _, isMap := x.Call.Args[0].Type().Underlying().(*types.Map); isMap {
+						return false
+					}
+					v = x.Call.Args[0]
+					continue
+				}
+				return false
+			}
+			if ins, isI := v.(ssa.Instruction); isI {
+				return !body[ins.Block()] && ins.Block() != h
+			}
+			return false
+		}
+		return false
+	}
+	var comp *phiComp
+	up := false
+	for _, c := range comps {
+		if c.kind != 0 {
+			continue
+		}
+		switch {
+		case cmp.X == ssa.Value(c.phi) && invariant(cmp.Y):
+			comp, up = c, op == token.LSS || op == token.LEQ
+			if op != token.LSS && op != token.LEQ && op != token.GTR && op != token.GEQ {
+				comp = nil
+			}
+		case cmp.Y == ssa.Value(c.phi) && invariant(cmp.X):
+			comp, up = c, op == token.GTR || op == token.GEQ
+			if op != token.LSS && op != token.LEQ && op != token.GTR && op != token.GEQ {
+				comp = nil
+			}
+		}
+	}
+	if comp == nil {
+		return
+	}
+	okAll, detail := true, ""
+	for _, B := range backs {
+		nv, have := newVal(comp, B)
+		var need Lin
+		if up {
+			need = nv.Sub(AtomLin(comp.alpha)).AddC(-1)
+		} else {
+			need = AtomLin(comp.alpha).Sub(nv).AddC(-1)
+		}
+		if !have || !B.Cons.EntailsGE(need) {
+			okAll = false
+			dir := "increase"
+			if !up {
+				dir = "decrease"
+			}
+			detail = fmt.Sprintf("the loop guarded by this comparison can take a path back to its head on which %s does not %s (next value %s): for an input that takes this path the loop never ends\n%s",
+				phiName(comp.phi), dir, nv.String(), B.Describe(nv))
+			break
+		}
+	}
+	a.obl("E1.progress", fr.fn, cmp, "", okAll, func() string { return detail })
+}
+
 
 // havocTerm returns an unconstrained value for a heap location whose value changes.
 func (a *Analyzer) havocTerm(loc Loc, old Term, others ...Term) Term {
